@@ -188,7 +188,23 @@ CHECKS["C15"] = dict(
     technique="Coq proof (LTS invariants over all interleavings) + scheduled differential runs on the real class",
     design="5/C15")
 
-READY = ["C01", "C02", "C03", "C05", "C06", "C08", "C09", "C10", "C11", "C13", "C14", "C15", "C17", "C18", "C19", "C20"]
+CHECKS["C12"] = dict(
+    text="Coq model of an abstract git workspace (commit DAG, branches, HEAD, remotes, tags, dirty/untracked files) with the "
+         "semantics of exactly the operations Bob issues, and of Bob's decisions on top: switch-or-attic, AtticTracker prefix "
+         "matching in path order, collision rule, reset --keep guard, url digest rule, clean -s / clean --attic expendability. "
+         "Unbounded theorems: every user commit and uncommitted file content that exists after some history still exists (in "
+         "place or in an attic) after any further bob dev / --clean-checkout / clean -s / clean --attic; nested SCMs follow their "
+         "parent into the attic; deletion requires every recorded SCM (nested form for --attic) to be expendable; an expendable "
+         "directory holds no user object; fresh checkout/successful switch reaches the target except in the named shapes, which "
+         "are `_refuted` by witnesses (known findings F15, F16, F17, F35). Tie: real git 2.39 universes and real bob runs over "
+         "generated histories; complete observed state and Bob's decisions compared with the model after every step; sweep for "
+         "every user-created object.",
+    note="partial by design: git itself is modelled and validated differentially; rebase, submodules, svn/cvs, checkoutScript "
+         "are outside the model",
+    technique="Coq proof (monotonicity invariant over histories of operations) + differential runs against real git and bob",
+    design="5/C12")
+
+READY = ["C01", "C02", "C03", "C05", "C06", "C08", "C09", "C10", "C11", "C12", "C13", "C14", "C15", "C17", "C18", "C19", "C20"]
 
 NOT_YET = {}
 
